@@ -1072,6 +1072,7 @@ func (p *prover) condFacts(s *factSet, cond ssa.Value, truth bool, seen map[term
 		}
 		return
 	}
+	p.succFacts(s, cond, truth, seen)
 	// strings.HasPrefix(x, p) / HasSuffix / Contains and the bytes counterparts: when true, len(p) <= len(x)
 	if cl, ok := cond.(*ssa.Call); ok && truth {
 		if f := cl.Common().StaticCallee(); f != nil && len(cl.Common().Args) == 2 {
